@@ -1010,7 +1010,12 @@ Definition w_nbsp_triple : triple := (Iri w_nbsp_iri, [104; 58; 112], ONode (Iri
 Lemma nbsp_iri_roundtrips :
   wf_triple w_nbsp_triple = true /\
   exists s, nt_row w_nbsp_triple = Some s /\ parse_doc_buf bufsiz s = Some [w_nbsp_triple].
-Proof. split; [reflexivity|]. eexists. split; vm_compute; reflexivity. Qed.
+Proof.
+  split; [reflexivity|].
+  destruct (nt_roundtrip_full bufsiz) with (t := w_nbsp_triple) as (s & Hs & _ & Hb);
+    [unfold bufsiz; lia|reflexivity|reflexivity|].
+  now exists s.
+Qed.
 
 (* the historical reader class [^\s DQ LT GT] refused a character that the writer lets through: with it the
    inclusion refused_sub_invalid fails, e.g. for U+00A0 (a str.isspace character) *)
